@@ -30,6 +30,11 @@ HISTORIES = [
     [("USR2", "a"), ("STOP", "a"), ("STOP", "b")],                # upgrade, later stop the new one: nothing left
     [("USR2", "a"), ("STOP", "b"), ("STOP", "a")],                # rollback, then stop: nothing left
     [("USR2_EARLY", "a"), ("STOP", "a")],                         # the old master leaves while the new one is still booting
+    [("USR2", "a"), ("WINCH", "a"), ("HUP", "a"), ("STOP", "b")],  # 9 (daemon): old workers retired, restored by HUP, rollback
+    [("USR2F", "a"), ("USR2", "a"), ("STOP", "a")],               # 10: the new release cannot boot; a later good one can
+    [("WINCH", "a"), ("HUP", "a"), ("USR2", "a"), ("STOP", "a")],  # 11 (daemon)
+    [("USR2", "a"), ("WINCH", "a"), ("STOP", "b"), ("HUP", "a")],  # 12 (daemon): rollback onto a winched master, then HUP
+    [("USR2F", "a"), ("USR2F", "a"), ("STOP", "a")],              # 13
 ]
 
 
@@ -43,9 +48,13 @@ def read_pid(path):
 
 def run_history(hist, bind, stopsig, wk="sync"):
     early = any(op == "USR2_EARLY" for op, _ in hist)
-    s = rp.Server(wk, workers=1, bind=bind, pidfile=True,
-                  args=["--graceful-timeout", "3"] + (["--preload"] if early else []),
-                  env={"VERIF_BOOT_SLEEP": "1.5"} if early else None, name="c14")
+    daemon = any(op == "WINCH" for op, _ in hist)
+    flag = os.path.join(rp._scratch(), "broken_%d_%d" % (os.getpid(), threading.get_ident()))
+    env = {"VERIF_BROKEN_FLAG": flag}
+    if early:
+        env["VERIF_BOOT_SLEEP"] = "1.5"
+    s = rp.Server(wk, workers=1, bind=bind, pidfile=True, daemon=daemon,
+                  args=["--graceful-timeout", "3"] + (["--preload"] if early else []), env=env, name="c14")
     masters = {}           # name -> pid
     stop = threading.Event()
     counters = {"refused": 0, "complete": 0, "failed": 0}
@@ -88,8 +97,25 @@ def run_history(hist, bind, stopsig, wk="sync"):
             al = [n for n in ("a", "b", "c") if alive(n)]
             if not al:
                 refused = 0        # nobody is supposed to listen any more
+            # probe: whose workers answer?
+            served = set()
+
+            def probe():
+                try:
+                    st, body, info = s.get("/pid", timeout=1.5)
+                    wp = rp.parse_ident(body)[0]
+                    for n in al:
+                        if wp in rp.children_of(masters[n]):
+                            served.add(n)
+                except OSError:
+                    pass
+            if al:
+                pts = [threading.Thread(target=probe) for _ in range(6)]
+                [t.start() for t in pts]
+                [t.join() for t in pts]
             return {"e": "chk", "alive": al, "base": name_of(read_pid(s.pidfile)), "two": name_of(read_pid(s.pidfile + ".2")),
-                    "sock": bool(s.sockpath and os.path.exists(s.sockpath)), "refused": refused, "nmasters": len(al)}
+                    "sock": bool(s.sockpath and os.path.exists(s.sockpath)), "refused": refused, "nmasters": len(al),
+                    "serving": sorted(served)}
         ev = [checkpoint()]
         def find_new(name):
             # the master started by the last USR2 records itself under ".2" (or, once promoted, under the base name)
@@ -107,6 +133,35 @@ def run_history(hist, bind, stopsig, wk="sync"):
                 pending = {"a": "b", "b": "c"}[m]
                 time.sleep(0.4)
                 ev.append({"e": "op", "op": "USR2", "m": m})
+                continue
+            if op in ("WINCH", "HUP"):
+                if alive(m):
+                    os.kill(masters[m], signal.SIGWINCH if op == "WINCH" else signal.SIGHUP)
+                time.sleep(2.2)
+                ev.append({"e": "op", "op": op, "m": m})
+                ev.append(checkpoint())
+                continue
+            if op == "USR2F":
+                # the release on disk is broken while the new master boots: it exits by itself (status 3)
+                with open(flag, "w") as f:
+                    f.write("x")
+                kids = set(rp.children_of(masters[m]))
+                os.kill(masters[m], signal.SIGUSR2)
+                deadline = time.time() + 8
+                newp = None
+                while time.time() < deadline:
+                    now = set(rp.children_of(masters[m])) - kids if alive(m) else set()
+                    if newp is None and now:
+                        newp = sorted(now)[0]
+                    if newp is not None and rp.proc_state(newp) in (None, "Z"):
+                        break
+                    if not alive(m):
+                        break
+                    time.sleep(0.05)
+                time.sleep(1.6)
+                os.unlink(flag)
+                ev.append({"e": "op", "op": "USR2F", "m": m})
+                ev.append(checkpoint())
                 continue
             if op == "USR2":
                 before = set(rp.children_of(masters[m])) if alive(m) else set()
@@ -145,6 +200,10 @@ def run_history(hist, bind, stopsig, wk="sync"):
                     "masters": masters}
     finally:
         stop.set()
+        try:
+            os.unlink(flag)
+        except OSError:
+            pass
         for p in masters.values():
             try:
                 for c in rp.children_of(p):
@@ -164,7 +223,7 @@ def up_cfg(label, unix, nsig=7, dev=(), trace=False):
     else:
         tlc.write_cfg(cfg, spec="Spec", constants={"Unix": unix, "MaxSignals": nsig, "Dev": set(dev)},
                       invariants=["ListenRefcountPositive", "SocketFileUsable", "SocketFileRemovedAtLast", "Pid2ThenRename",
-                                  "AtMostTwoGenerationsAlive", "RollbackRestores"],
+                                  "AtMostTwoGenerationsAlive", "RollbackRestores", "ServesUnlessWinched", "DiesOnlyWhenToldTo"],
                       properties=["PromotedOwnsConfiguredName"])
     return cfg
 
@@ -176,7 +235,8 @@ def c14(ctx):
         if not r.ok:
             raise tlc.TLCError("Upgrade design violates %s" % r.violated)
         ctx.add_model(r, "unix=%s" % unix)
-    for dev, inv in (("AlwaysUnlink", "SocketFileUsable"), ("NoReexecReset", "RollbackRestores")):
+    for dev, inv in (("AlwaysUnlink", "SocketFileUsable"), ("NoReexecReset", "RollbackRestores"),
+                     ("HupKeepsScale", "ServesUnlessWinched"), ("ChildBootFailureHaltsParent", "DiesOnlyWhenToldTo")):
         rr = tlc.run("Upgrade", up_cfg("dev_" + dev, True, nsig=5, dev=[dev]), name="Upgrade_dev_" + dev, workers=4, timeout=300)
         ctx.coverage.setdefault("deviation_runs", []).append({"dev": dev, "expected": inv, "reproduced": inv in rr.violated})
     ctx.coverage["exhaustive"] = True
@@ -184,11 +244,12 @@ def c14(ctx):
     if ctx.quick:
         plan = [(HISTORIES[0], "unix", signal.SIGTERM), (HISTORIES[1], "tcp", signal.SIGQUIT),
                 (HISTORIES[2], "tcp", signal.SIGTERM), (HISTORIES[3], "unix", signal.SIGTERM),
-                (HISTORIES[4], "tcp", signal.SIGTERM), (HISTORIES[8], "unix", signal.SIGTERM)]
+                (HISTORIES[4], "tcp", signal.SIGTERM), (HISTORIES[8], "unix", signal.SIGTERM),
+                (HISTORIES[9], "tcp", signal.SIGTERM), (HISTORIES[10], "unix", signal.SIGTERM)]
     else:
         plan = [(h, b, sg) for h in HISTORIES for b in ("tcp", "unix") for sg in (signal.SIGTERM, signal.SIGQUIT)]
     from props.reload_real import _parallel
-    results = _parallel(plan, lambda a, i: run_history(a[0], a[1], a[2], wk=rng.choice(["sync", "gthread"])), par=6)
+    results = _parallel(plan, lambda a, i: run_history(a[0], a[1], a[2], wk=rng.choice(["sync", "gthread"])), par=8)
     ctx.coverage["real_process_histories"] = len(results)
     for unix in (True, False):
         sel = [(t, m) for t, m in results if t["unix"] == unix]
